@@ -666,6 +666,8 @@ Array<T>& Array<T>::insert(int k, const T& x)
 	int s = h->s;
 	if (k == -1)
 		k = n;
+	const T* px = &x;
+	int ix = (px >= _a && px < _a + n) ? int(px - _a) : -1; // x is an element of this array
 	if (n < s) {}
 	else
 	{
@@ -683,7 +685,9 @@ Array<T>& Array<T>::insert(int k, const T& x)
 	if (k < n) {
 		memmove((char*)_a + (k + 1) * sizeof(T), (void*)(_a + k), (n - k) * sizeof(T));
 	}
-	asl_construct_copy(_a + k, x);
+	if (ix >= 0)
+		px = _a + (ix >= k ? ix + 1 : ix);
+	asl_construct_copy(_a + k, *px);
 	h->n = n+1;
 	return *this;
 }
